@@ -105,7 +105,7 @@ func plan(d *mon.Driver) ([]CaseData, []target, map[string]bool, []string, error
 				emit(t, "generic", g, combos)
 			}
 		}
-		nr := d.N(3, 20)
+		nr := d.N(3, 60)
 		for i := 0; i < nr; i++ {
 			rr := randomRecipe(r, t, i)
 			if t.File {
@@ -199,9 +199,26 @@ func analyseStrace(path string, add func(id, s string)) (int, int, int) {
 	return lines, markers, harness
 }
 
-func straceAvailable() bool {
-	_, err := exec.LookPath("strace")
-	return err == nil
+// straceWorks runs strace on a trivial traced command that stats a marker path, and checks that the
+// marker shows up in the trace: without that the syscall-level monitor would be blind (or, where
+// ptrace is not permitted, every worker would fail to start).
+func straceWorks(scratch string) string {
+	path, err := exec.LookPath("strace")
+	if err != nil {
+		return "strace is not installed"
+	}
+	self, err := os.Executable()
+	if err != nil {
+		return err.Error()
+	}
+	out := filepath.Join(scratch, "preflight-strace.txt")
+	cmd := exec.Command(path, "-f", "-qq", "-e", "trace=%file,chdir,execve", "-s", "256", "-o", out, self, "worker", "C12", "/VMARK/preflight/in", "/nonexistent/out", "/nonexistent/log")
+	_ = cmd.Run() // the worker fails to open its input: that open is what we look for
+	b, _ := os.ReadFile(out)
+	if !strings.Contains(string(b), `"/VMARK/preflight/in"`) {
+		return "strace does not trace this binary here (ptrace not permitted?): " + mon.Truncate(string(b), 200)
+	}
+	return ""
 }
 
 func drive(d *mon.Driver, replay string) int {
@@ -212,9 +229,8 @@ func drive(d *mon.Driver, replay string) int {
 		"harness accesses to the real canary tree happen between marker syscalls and are excluded from the strace oracle; script goroutines are waited for before the window opens",
 		"an operation called with generic or random arguments may fail before reaching the OS (error without side effect); only recipes whose arguments are known to be valid must produce a recording-OS event",
 	}
-	if !straceAvailable() {
-		fmt.Println("strace not found")
-		d.Fatal("strace is not installed: the syscall-level monitor cannot run")
+	if msg := straceWorks(d.Scratch); msg != "" {
+		d.Fatal("the syscall-level monitor cannot run: " + msg)
 		return d.Finish(1, 0)
 	}
 
@@ -380,11 +396,16 @@ func drive(d *mon.Driver, replay string) int {
 	}
 	sort.Strings(gl)
 	d.Extra("live_operations", len(targets))
+	var opNames []string
+	for _, t := range targets {
+		opNames = append(opNames, t.Op)
+	}
+	d.Extra("live_operation_names", opNames)
 	d.Extra("operations_without_recipe_called_generically", gl)
 	d.Extra("contexts", contexts)
 	d.Extra("routes", routes)
 	d.Extra("exhaustive", false)
-	return d.Finish(d.N(6000, 15000), d.N(2000, 4000))
+	return d.Finish(d.N(6000, 40000), d.N(2000, 8000))
 }
 
 func describe(c *CaseData) string {
